@@ -57,7 +57,11 @@ Definition check_case (c : case) : list N :=
           | Ok cc => flag 1 (str_eqb (cc_signer cc) csigner && str_eqb (cc_fp2 cc) cfp2 && str_eqb (cc_fp cc) cfp)
           | Err _ => []
           end ++
-          flag 1 (Bool.eqb (is_ok (verify_cached P' bl' t' (mkCached c cfp cfp2 csigner) sigok')) okc) ++
+          (* the record as the documented behaviour has it: fingerprint2 is the fingerprint of the other S form,
+             which the harness computes on its own (c_fp2 c), not what the code stored *)
+          flag 1 (str_eqb cfp2 (c_fp2 c)) ++
+          flag 1 (Bool.eqb (is_ok (verify_cached P' bl' t' (mkCached c cfp (c_fp2 c) csigner) sigok')) okc) ++
+          flag 2 (Bool.eqb (accept_spec P' bl' t' c sigok') okc) ++  (* the rule (both forms!) on the cached verdict *)
           flag 1 (Bool.eqb (is_ok (verify P' bl' t' c sigok')) okf) ++
           flag 2 (Bool.eqb (accept_spec P' bl' t' c sigok') okf) ++
           flag 2 (Bool.eqb okc okf)                                 (* cached re-check = full check, on the code *)
@@ -66,7 +70,7 @@ Definition check_case (c : case) : list N :=
       flat_map (fun s =>
         let '(mode, t, c, sigok, okh, okf, csigner, cfp2, cfp) := s in
         let m := if mode =? 0 then is_ok (verify P bl t c sigok)
-                 else is_ok (verify_cached P bl t (mkCached c cfp cfp2 csigner) sigok) in
+                 else is_ok (verify_cached P bl t (mkCached c cfp (c_fp2 c) csigner) sigok) in
         flag 1 (Bool.eqb m okh) ++
         flag 2 (Bool.eqb (accept_spec P bl t c sigok) okh) ++      (* the documented rule on the real verdict *)
         flag 2 (Bool.eqb okh okf))                                  (* history independence, on the code *)
